@@ -49,6 +49,13 @@ def ops():
     typed("setstr", "str", "sl", 0, "e0", "e0")
     typed("setstr", "str", "sl", 2, "e2", "e2")
     typed("setstr", "str", "i", 0, "x", "x")                   # wrong type
+    # the value handed out by the getter given back to the setter of the same option
+    def self_set(m, path, src, dst):
+        _, o = m.getopt(path)
+        return m.set_typed(path, "str", dst, o.vals[src] if (o is not None and src < len(o.vals)) else None)
+    for path, src, dst in (("s", 0, 0), ("sl", 1, 0), ("sl", 0, 1), ("tm=b|y", 0, 0)):
+        O.append(("setstr-self %s[%d]->[%d]" % (path, src, dst), ["setstr_self", 1, H(path), src, dst],
+                  lambda m, path=path, src=src, dst=dst: self_set(m, path, src, dst)))
     typed("setstr", "str", "s", 0, None, None)                 # NULL is a value a string option can hold
     typed("setstr", "str", "sl", 1, None, None)
     typed("setfloat", "float", "fl", 1, "0.25", 0.25)
